@@ -169,6 +169,10 @@ def run(c, case):
             v = a._getitem((slice(None), 1))
             v._setitem((1,), -9)
         return {'a': arr_list(a)}
+    if f == 'np_where':
+        wrap = lambda v: np.asarray(v) if isinstance(v, list) else v
+        r = np.np_where(np.asarray(case['cond'], dtype=np.BOOL), wrap(case['x']), wrap(case['y']))
+        return {'r': arr_list(r), 'kind': r.dtype.kind}
     if f == 'np_bool_arith':
         m = np.asarray(case['mask'], dtype=np.BOOL)
         ints = np.asarray(list(range(len(case['mask']))))
